@@ -94,6 +94,24 @@ static std::string program(uint64_t seed, const Shared& shared, const std::vecto
 #ifndef VERIF_TSAN
   g_in_deser.fetch_sub(1, std::memory_order_relaxed);
 #endif
+  // 3b. a generated spelling with \uXXXX escapes, surrogate pairs, comments-free dialect forms
+  {
+    gen::Opts so;
+    so.utf8_only = true;
+    so.max_depth = 3;
+    Val sv = gen::gen_value(s, so);
+    gen::attach_float_literals(s, sv, 30);
+    gen::Spell sp;
+    sp.strict = s.coin();
+    std::string text = gen::spell_document(s, sp, sv);
+    // force at least one non-ASCII escape of every UTF-8 length
+    text = "[" + text + ",\"\\u00e9\\u20ac\\ud83d\\ude00\\u0041\"]";
+    JsonDocument d;
+    DeserializationError e = deserializeJson(d, text, DeserializationOption::NestingLimit(20));
+    std::string t;
+    serializeMsgPack(d, t);
+    tr += std::string("U") + e.c_str() + cs::hex_bytes(t, 4000);
+  }
   // 4. the shared document as copy source and comparison operand
   {
     JsonDocument c;
